@@ -285,10 +285,10 @@ theorem j_syDecide {s s' : State} {a : Nat} {o : Obs} (hh : HolderInv s) (hw : W
       have ho := (hh.iff a' q).mp (holds_of_runningQ (hw a') r)
       have := hh.held a' q v ho hv
       rw [hidleSt.1] at this; simp [QState.held] at this
-    · intro i; rw [jobPQ_setHolder]; exact jobPQ_of_append (nj := ⟨q, .immediate a b, .held a, true, false, none⟩) (by rfl) i
+    · intro i; rw [jobPQ_setHolder]; exact jobPQ_of_append (nj := ⟨q, .immediate a b, .held a, true, false, none, false⟩) (by rfl) i
     · intro i; exact qjobs_setQ_state hv _ _ i
-    · intro i hi; rw [jobB_setHolder, jobB_of_append (s := s) (nj := ⟨q, .immediate a b, .held a, true, false, none⟩) (by rfl)]; simp [hi]
-    · intro i hi; rw [jobE_setHolder, jobE_of_append (s := s) (nj := ⟨q, .immediate a b, .held a, true, false, none⟩) (by rfl)]; simp [hi]
+    · intro i hi; rw [jobB_setHolder, jobB_of_append (s := s) (nj := ⟨q, .immediate a b, .held a, true, false, none, false⟩) (by rfl)]; simp [hi]
+    · intro i hi; rw [jobE_setHolder, jobE_of_append (s := s) (nj := ⟨q, .immediate a b, .held a, true, false, none, false⟩) (by rfl)]; simp [hi]
     · simp
   · split at hs
     · simp only [Option.some.injEq, Prod.mk.injEq] at hs; obtain ⟨rfl, _⟩ := hs
@@ -318,10 +318,10 @@ theorem j_tsDecide {s s' : State} {a : Nat} {o : Obs} (hh : HolderInv s) (hw : W
       have ho := (hh.iff a' q).mp (holds_of_runningQ (hw a') r)
       have := hh.held a' q v ho hv
       rw [hidleSt.1] at this; simp [QState.held] at this
-    · intro i; rw [jobPQ_setHolder]; exact jobPQ_of_append (nj := ⟨q, .immediate a b, .held a, true, false, none⟩) (by rfl) i
+    · intro i; rw [jobPQ_setHolder]; exact jobPQ_of_append (nj := ⟨q, .immediate a b, .held a, true, false, none, false⟩) (by rfl) i
     · intro i; exact qjobs_setQ_state hv _ _ i
-    · intro i hi; rw [jobB_setHolder, jobB_of_append (s := s) (nj := ⟨q, .immediate a b, .held a, true, false, none⟩) (by rfl)]; simp [hi]
-    · intro i hi; rw [jobE_setHolder, jobE_of_append (s := s) (nj := ⟨q, .immediate a b, .held a, true, false, none⟩) (by rfl)]; simp [hi]
+    · intro i hi; rw [jobB_setHolder, jobB_of_append (s := s) (nj := ⟨q, .immediate a b, .held a, true, false, none, false⟩) (by rfl)]; simp [hi]
+    · intro i hi; rw [jobE_setHolder, jobE_of_append (s := s) (nj := ⟨q, .immediate a b, .held a, true, false, none, false⟩) (by rfl)]; simp [hi]
     · simp
   · split at hs
     · simp only [Option.some.injEq, Prod.mk.injEq] at hs; obtain ⟨rfl, _⟩ := hs
